@@ -7,6 +7,8 @@
 mod terms;
 mod o_lists;
 mod o_unify;
+mod o_compare;
+mod o_listops;
 
 use std::panic;
 
@@ -19,6 +21,11 @@ fn oracles() -> Vec<(&'static str, Enumerate, Check)> {
         ("c09_anon", o_unify::enum_anon, o_unify::check_anon),
         ("c08_cycle", o_unify::enum_cycle, o_unify::check_cycle),
         ("c13_function", o_unify::enum_function, o_unify::check_function),
+        ("c14_compare", o_compare::enum_cmp, o_compare::check_cmp),
+        ("c17_count", o_listops::enum_count, o_listops::check_count),
+        ("c17_filter", o_listops::enum_filter, o_listops::check_filter),
+        ("c17_terms", o_listops::enum_terms, o_listops::check_terms),
+        ("c16_append", o_listops::enum_append, o_listops::check_append),
         ("c06_keeps", o_unify::enum_keeps, o_unify::check_keeps),
     ]
 }
